@@ -82,7 +82,7 @@ def check_property(pid, tier="quick", seed=0, write_baseline=False):
     tasks, names, owners = [], [], []
     for q in unroll_needed:
         con = reg.contracts[q]
-        for ar in (con.arities or []):
+        for ar in ((con.extra.get("arities_thorough") if tier == "thorough" and con.extra.get("arities_thorough") else con.arities) or []):
             tasks.append((q, ar, timeout_ms))
             names.append(f"verify:{q}:unroll:{json.dumps(ar, sort_keys=True)}:{timeout_ms}")
             owners.append(q)
